@@ -26,7 +26,7 @@ func TestC14Binary(t *testing.T) {
 	if _, err := os.Stat(bin); err != nil {
 		t.Skipf("prunner binary not built: %v", err)
 	}
-	col := ev.Get("C14", "binary", "the real prunner binary (go build ./cmd/prunner from the tree under test) listening on a TCP port, with profiling enabled or not; requests over the socket to the documented API routes, the profiling paths (/debug/pprof/, /debug/pprof/cmdline, /debug/pprof/heap, /debug/pprof/goroutine, /debug/vars, /debug/) and a few undocumented paths, without a token, with garbage, with a token signed with another secret, with an expired token (header or cookie); oracle: API routes answer 401; with profiling disabled the profiling paths answer 404 and nothing but the API answers 2xx; with profiling enabled they answer 200 without a token; the body never contains the secret; a valid token is accepted (positive control) and afterwards exactly the jobs scheduled with it exist; non-trivial = every case; distinct by (profiling, credential, path)")
+	col := ev.Get("C14", "binary", "the real prunner binary (go build ./cmd/prunner from the tree under test) listening on a TCP port, with profiling enabled or disabled in one of the ways the CLI offers (flag absent, --enable-profiling[=true|false], PRUNNER_ENABLE_PROFILING=true|1|false|0); requests over the socket to the documented API routes, the profiling paths (/debug/pprof/, /debug/pprof/cmdline, /debug/pprof/heap, /debug/pprof/goroutine, /debug/vars, /debug/) and a few undocumented paths, without a token, with garbage, with a token signed with another secret, with an expired token (header or cookie); oracle: API routes answer 401; with profiling disabled the profiling paths answer 404 and nothing but the API answers 2xx; with profiling enabled they answer 200 without a token; the body never contains the secret; a valid token is accepted (positive control) and afterwards exactly the jobs scheduled with it exist; non-trivial = every case; distinct by (profiling, credential, path)")
 	auth := jwtauth.New("HS256", []byte(binSecret), nil)
 	_, token, _ := auth.Encode(map[string]interface{}{"sub": "bin"})
 	other := jwtauth.New("HS256", []byte("another-secret-0123456789abcdef"), nil)
@@ -45,10 +45,22 @@ func TestC14Binary(t *testing.T) {
 		}
 		addr := fmt.Sprintf("127.0.0.1:%d", freePort(rt))
 		args := []string{"--jwt-secret", binSecret, "--data", filepath.Join(dir, "data"), "--path", dir, "--address", addr, "--env-files", "", "--config", filepath.Join(dir, "cfg.yml")}
+		// the ways to say it: the flag with or without a value, or the environment variable
+		how := "flag absent"
+		var extraEnv []string
 		if profiling {
-			args = append(args, "--enable-profiling")
+			how = rapid.SampledFrom([]string{"--enable-profiling", "--enable-profiling=true", "PRUNNER_ENABLE_PROFILING=true", "PRUNNER_ENABLE_PROFILING=1"}).Draw(rt, "how")
+		} else {
+			how = rapid.SampledFrom([]string{"flag absent", "flag absent", "--enable-profiling=false", "PRUNNER_ENABLE_PROFILING=false", "PRUNNER_ENABLE_PROFILING=0"}).Draw(rt, "how")
+		}
+		switch {
+		case strings.HasPrefix(how, "--"):
+			args = append(args, how)
+		case strings.HasPrefix(how, "PRUNNER_"):
+			extraEnv = append(extraEnv, how)
 		}
 		cmd := exec.Command(bin, args...)
+		cmd.Env = append(os.Environ(), extraEnv...)
 		cmd.Dir = dir
 		var logs bytes.Buffer
 		cmd.Stdout, cmd.Stderr = &logs, &logs
@@ -119,10 +131,10 @@ func TestC14Binary(t *testing.T) {
 				code, body = do("GET", p, creds[credName], transport)
 				what = "GET " + p
 				if !profiling && code != 404 {
-					rt.Fatalf("[C14] profiling disabled: %s with credential %q -> %d, the profiling routes must not exist", what, credName, code)
+					rt.Fatalf("[C14] profiling disabled (%s): %s with credential %q -> %d, the profiling routes must not exist", how, what, credName, code)
 				}
 				if profiling && code == 401 {
-					rt.Fatalf("[C14] profiling enabled: %s demands a token", what)
+					rt.Fatalf("[C14] profiling enabled (%s): %s demands a token", how, what)
 				}
 			case "other":
 				p := others[rapid.IntRange(0, len(others)-1).Draw(rt, "otherPath")]
@@ -135,7 +147,7 @@ func TestC14Binary(t *testing.T) {
 			if !(profiling && kind == "debug") && strings.Contains(body, binSecret) {
 				rt.Fatalf("[C14] profiling=%v: the answer to %s reveals the JWT secret", profiling, what)
 			}
-			col.Add(fmt.Sprintf("%v|%s|%s|%s", profiling, credName, transport, what), true, map[string]int{fmt.Sprintf("profiling:%v", profiling): 1, "credential:" + credName: 1, "kind:" + kind: 1, fmt.Sprintf("status:%d", code): 1}, 1,
+			col.Add(fmt.Sprintf("%v|%s|%s|%s", profiling, credName, transport, what), true, map[string]int{fmt.Sprintf("profiling:%v", profiling): 1, "how:" + how: 1, "credential:" + credName: 1, "kind:" + kind: 1, fmt.Sprintf("status:%d", code): 1}, 1,
 				map[string]interface{}{"profiling": profiling, "request": what, "credential": credName, "transport": transport, "status": code})
 		}
 		// nothing was scheduled by all that
